@@ -13,10 +13,21 @@ PRE = r'''
 #include <user_interface.h>
 #include <supla_esp.h>
 #include "supla_esp_cfg.c"
-/* stub SDK for the probe: blank flash, writes discarded */
-SpiFlashOpResult spi_flash_erase_sector(uint16 s) { (void)s; return SPI_FLASH_RESULT_OK; }
-SpiFlashOpResult spi_flash_write(uint32 d, uint32 *s, uint32 n) { (void)d; (void)s; (void)n; return SPI_FLASH_RESULT_OK; }
-SpiFlashOpResult spi_flash_read(uint32 s, uint32 *d, uint32 n) { (void)s; memset(d, 0xFF, n); return SPI_FLASH_RESULT_OK; }
+/* stub SDK for the probe: blank flash (or one preloaded configuration record), writes discarded, erase/write logged */
+static long probe_ops[64][3]; static int probe_nops = 0;
+static unsigned char probe_img[4096]; static unsigned probe_img_n = 0;
+static void probe_log(long op, long a, long n) { if (probe_nops < 64) { probe_ops[probe_nops][0] = op; probe_ops[probe_nops][1] = a; probe_ops[probe_nops][2] = n; probe_nops++; } }
+SpiFlashOpResult spi_flash_erase_sector(uint16 s) { probe_log(0, (long)s * SPI_FLASH_SEC_SIZE, SPI_FLASH_SEC_SIZE); return SPI_FLASH_RESULT_OK; }
+SpiFlashOpResult spi_flash_write(uint32 d, uint32 *s, uint32 n) { (void)s; probe_log(1, d, n); return SPI_FLASH_RESULT_OK; }
+SpiFlashOpResult spi_flash_read(uint32 s, uint32 *d, uint32 n) {
+  memset(d, 0xFF, n);
+  if (s == CFG_SECTOR * SPI_FLASH_SEC_SIZE) memcpy(d, probe_img, probe_img_n < n ? probe_img_n : n);
+  return SPI_FLASH_RESULT_OK;
+}
+static void probe_print_ops(const char *name) {
+  for (int i = 0; i < probe_nops; i++) fprintf(stdout, "L %s %ld %ld %ld\n", name, probe_ops[i][0], probe_ops[i][1], probe_ops[i][2]);
+  probe_nops = 0;
+}
 uint32 spi_flash_get_id(void) { return 0; }
 void ets_intr_lock(void) {}
 void ets_intr_unlock(void) {}
@@ -62,8 +73,9 @@ ints += fields('O5B', 'SuplaEspCfg_old_v5B', COMMON + ['Time1', 'Time2', 'Trigge
 ints += fields('O5A', 'SuplaEspCfg_old_v5A', COMMON + ['FullOpeningTime', 'FullClosingTime'])
 
 BODY = r'''
-  /* TAG written by the real supla_esp_cfg_init() on a blank flash */
+  /* TAG written by the real supla_esp_cfg_init() on a blank flash; erase/write sequence of that boot */
   supla_esp_cfg_init();
+  probe_print_ops("OPS_INIT_BLANK");
   fprintf(stdout, "B TAG7"); for (int i = 0; i < 6; i++) fprintf(stdout, " %u", (unsigned char)supla_esp_cfg.TAG[i]); fprintf(stdout, "\n");
   /* image produced by the real factory_defaults(0) from an all-zero record */
   memset(&supla_esp_cfg, 0, sizeof supla_esp_cfg); memset(&supla_esp_state, 0xEE, sizeof supla_esp_state);
@@ -73,4 +85,16 @@ BODY = r'''
     fprintf(stdout, "I DEFAULTS_ZERO_STATE %d\n", z); }
 '''
 
-G.GROUPS['C13Layout'] = dict(pre=PRE, ints=ints, body=BODY, extra_names=['TAG7', 'DEFAULTS_IMG', 'DEFAULTS_ZERO_STATE'])
+BODY += r'''
+  /* shape pins: the erase/write sequences (op, address, length) of a healthy save of each kind */
+  supla_esp_cfg_save(&supla_esp_cfg); probe_print_ops("OPS_CFG_SAVE");
+  supla_esp_save_state(0); probe_print_ops("OPS_STATE_SAVE");
+  factory_defaults(1); probe_print_ops("OPS_FACTORY_SAVE");
+  { SuplaEspCfg_old_v6 o; memset(&o, 0, sizeof o); memcpy(o.TAG, "SUPLA\6", 6); memset(o.GUID, 1, sizeof o.GUID); memset(o.AuthKey, 1, sizeof o.AuthKey);
+    memcpy(probe_img, &o, sizeof o); probe_img_n = sizeof o; supla_esp_cfg_init(); probe_print_ops("OPS_INIT_V6");
+    fprintf(stdout, "I INIT_V6_ACCEPTED %d\n", memcmp(supla_esp_cfg.GUID, o.GUID, sizeof o.GUID) == 0 && supla_esp_cfg.TAG[5] == 7);
+    memcpy(probe_img, &supla_esp_cfg, sizeof supla_esp_cfg); probe_img_n = sizeof supla_esp_cfg; supla_esp_cfg_init();
+    fprintf(stdout, "I OPS_INIT_V7_COUNT %d\n", probe_nops); probe_nops = 0; }
+'''
+G.GROUPS['C13Layout'] = dict(pre=PRE, ints=ints, body=BODY, extra_names=['TAG7', 'DEFAULTS_IMG', 'DEFAULTS_ZERO_STATE', 'OPS_INIT_BLANK', 'OPS_CFG_SAVE',
+                                                                        'OPS_STATE_SAVE', 'OPS_FACTORY_SAVE', 'OPS_INIT_V6', 'INIT_V6_ACCEPTED', 'OPS_INIT_V7_COUNT'])
